@@ -44,6 +44,8 @@ structure Cfg where
   idx : Option (List Nat)
   /-- components returned by the parameter getter -/
   pidx : List Nat
+  /-- factor of the shrink policy applied on a rejection (`None` in the code = halving; a policy that raises falls back to halving) -/
+  shrink : Rat := 1/2
 deriving Repr, Inhabited
 
 /-- interface predictor `_predictor_from_problem`: `last[idx_k] += step_k` (in order, duplicates accumulate) -/
@@ -119,7 +121,7 @@ def step (cfg : Cfg) (norm : Vec → Rat) (s : St) (o : Outcome) : St :=
         step := st', leftTarget := outside p cfg.tmin cfg.tmax,
         preds := s.preds ++ [pred], steps := s.steps ++ [st'] }
   | .fail =>
-      let st' := clampStep cfg.stepMin cfg.stepMax (vscale (1/2) s.step)
+      let st' := clampStep cfg.stepMin cfg.stepMax (vscale cfg.shrink s.step)
       { s with
         rejected := s.rejected + 1, iterations := s.iterations + 1, attempt := s.attempt + 1,
         step := st', failed := decide (s.attempt + 1 > cfg.maxRetries),
